@@ -361,6 +361,19 @@ func (x *Exec) specEval(c *SpecCtx, e *Expr) (*Val, error) {
 func (x *Exec) localCell(c *SpecCtx, name string) (*ssa.Alloc, bool) {
 	// choose the declaration visible at the loop header (declared outside the loop, latest before it),
 	// or for non-loop contexts none (params denote entry values).
+	if (name == "rangeindex" || name == "idx") && c.li != nil {
+		for _, p := range c.li.header.Preds {
+			if c.li.blocks[p] {
+				continue
+			}
+			for _, in := range p.Instrs {
+				if a, ok := in.(*ssa.Alloc); ok && a.Comment == "rangeindex" {
+					return a, true
+				}
+			}
+		}
+		return nil, false
+	}
 	var best *ssa.Alloc
 	for _, b := range x.fn.Blocks {
 		for _, in := range b.Instrs {
@@ -368,7 +381,7 @@ func (x *Exec) localCell(c *SpecCtx, name string) (*ssa.Alloc, bool) {
 			if !ok || a.Comment != name {
 				continue
 			}
-			if c.li != nil && c.li.blocks[b] {
+			if c.li != nil && c.li.blocks[b] && !c.inBody {
 				continue
 			}
 			if _, live := c.st.cells[a]; !live {
@@ -829,6 +842,17 @@ func inferPatterns(bound []*Term, body *Term) [][]*Term {
 	walk = func(t *Term) {
 		if len(t.Bound) > 0 {
 			return // do not look inside nested quantifiers
+		}
+		if t.Op == "select" && len(t.Args) == 2 && t.Args[1].Op == "+" && len(t.Args[1].Args) == 2 && !mentions(t.Args[0]) {
+			// index of the form (+ c v) with v bound and c free
+			p, q := t.Args[1].Args[0], t.Args[1].Args[1]
+			if len(q.Args) == 0 && isBound[q.Op] && !mentions(p) {
+				k := t.String()
+				if !seen[k] {
+					seen[k] = true
+					cands[q.Op] = append(cands[q.Op], t)
+				}
+			}
 		}
 		if t.Op == "select" && len(t.Args) == 2 && len(t.Args[1].Args) == 0 && isBound[t.Args[1].Op] && !mentions(t.Args[0]) {
 			k := t.String()
